@@ -1,4 +1,5 @@
 import DW.Props.C06
+import DW.Props.C02
 
 /-!
 # C17 — Eq and union Clone are only granted when the field types justify them
